@@ -736,6 +736,44 @@ pub async fn run(cx: &mut Ctx) {
             }
         }
     }
+    if p == "C10" && cx.vio.is_empty() {
+        // A statement on a table that no session creates or drops in this run has no reason to
+        // fail because of what the other sessions do to *other* tables. (Refusals that ask for a
+        // retry - a DELETE whose row-sets were compacted under it - are documented behaviour.)
+        let ddl_tables: BTreeSet<String> = stmts
+            .iter()
+            .filter_map(|s| match &s.stmt {
+                Stmt::CreateTable(d) => Some(d.name.clone()),
+                Stmt::DropTable { name } => Some(name.clone()),
+                _ => None,
+            })
+            .collect();
+        for s in &stmts {
+            let table = match &s.stmt {
+                Stmt::Select(q) => Some(q.table.clone()),
+                Stmt::Insert { table, .. } | Stmt::Delete { table, .. } => Some(table.clone()),
+                _ => None,
+            };
+            if let (Some(t), Some(Outcome::Err(e))) = (table, &s.outcome) {
+                if !ddl_tables.contains(&t) && base.tables.contains_key(&t) && !e.contains("retry") {
+                    cx.violate(
+                        Violation::new(
+                            "C10",
+                            "unrelated-statement-failed",
+                            None,
+                            format!(
+                                "session {}: {} failed with {e} although no session creates or drops {t}",
+                                s.session,
+                                s.stmt.sql()
+                            ),
+                        )
+                        .with_sig(&crate::hist::err_class(&Outcome::Err(e.clone()))),
+                    );
+                    break;
+                }
+            }
+        }
+    }
     let bg_panics: Vec<String> = panics_since(0)
         .into_iter()
         .filter(|m| !m.contains("verif: injected"))
